@@ -1749,6 +1749,12 @@ class H2Connection:
             # So we just reset the new stream.
             return self._refuse_pushed_stream(frame), events
 
+        # Closed streams are cleaned up whenever the open streams are counted,
+        # and nothing on this path counts them: do the clean-up here, or a
+        # peer that keeps promising streams and resetting them could make
+        # their remains pile up without limit.
+        self._open_streams(int(not self.config.client_side))
+
         new_stream = self._begin_new_stream(
             frame.promised_stream_id, AllowedStreamIDs.EVEN
         )
